@@ -152,6 +152,20 @@ def rejected_batch_cases(tier, seed):
                             for warm in (False, True):
                                 pre = [{"op": {"op": "get", "key": "warmup"}}] if warm else []
                                 yield {"kind": kind, "cfg": dict(extra, ignore_exc=ie), "calls": pre + [{"op": r}] + FOLLOW, "follow": True, "coalesce": False}
+    # a key prefix: a key that is legal on its own and too long (or blank) only together with the prefix is refused on the client
+    # side like any other illegal key - were it sent, a server answers the command line and then reads the data block as a command
+    for kind, extra in (STACKS[0], STACKS[1], STACKS[3], STACKS[4]):
+        for pfx in (b"PREFIX/10:", "p" * 6):
+            for nr in (None, True, False):
+                for key in ("k" * 245, "k" * 250):
+                    for val in (b"get warmup", b"flush_all noreply", b"v" * 300):
+                        for r in ({"op": "set", "key": key, "value": val}, {"op": "add", "key": key, "value": val}, {"op": "append", "key": key, "value": val},
+                                  {"op": "set_many", "values": {"fine": b"1", key: val}}):
+                            if val != b"get warmup" and r["op"] not in ("set", "set_many"):
+                                continue
+                            r = dict(r, **({} if nr is None else {"noreply": nr}))
+                            yield {"kind": kind, "cfg": dict(extra, ignore_exc=False, key_prefix=pfx), "calls": [{"op": {"op": "get", "key": "warmup"}}, {"op": r}] + FOLLOW,
+                                   "follow": True, "coalesce": False}
     # megabytes of good items before the refused one (1.2, 2.5 and 5 MB in items of 100 and 300 KB), and very many keys before it
     for kind, extra in (STACKS[0], STACKS[1], STACKS[3]):
         for item, count in ((100000, 12), (300000, 8), (100000, 50)) if tier == "thorough" else ((100000, 12), (300000, 8)):
